@@ -116,6 +116,56 @@ Proof.
 Qed.
 Print Assumptions C08_shared_instance_harmless_only_when_overriding.
 
+(* rows and params are aligned: the params column is the list that was evaluated, row i pairs the i-th
+   candidate with the mean of ITS evaluate run, best_params_ is row best_index_ of that column *)
+Theorem C08_rows_pair_params_with_means :
+  forall XV tm yv xv metric gib asc F P apply_params respond cutoff_after base sp st cands s,
+  tune XV tm yv xv metric gib asc F P apply_params respond cutoff_after base sp st cands = Ok s ->
+  s_params s = cands /\
+  Forall2 (fun p m => fc_mean XV tm yv xv metric F respond cutoff_after sp st (apply_params base p)
+                      = Ok m) (s_params s) (s_means s) /\
+  exists c0, s_best s = nth (Z.to_nat (s_best_index s)) (s_params s) c0.
+Proof. exact rows_pair_params_with_means. Qed.
+Print Assumptions C08_rows_pair_params_with_means.
+
+(* the candidate source (grid / sampler: an iterable whose passes may consume generator state) is
+   iterated exactly ONCE: the list of that pass is evaluated and reported, the generator state after
+   the search is the state after one pass *)
+Theorem C08_search_draws_candidates_once :
+  forall XV tm yv xv metric gib asc F P apply_params respond cutoff_after base G draw g sp st s g',
+  search_from XV tm yv xv metric gib asc F P apply_params respond cutoff_after base G draw g sp st
+    = (Ok s, g') ->
+  draw g = (s_params s, g') /\
+  tune XV tm yv xv metric gib asc F P apply_params respond cutoff_after base sp st (s_params s) = Ok s.
+Proof. exact search_draws_once. Qed.
+Print Assumptions C08_search_draws_candidates_once.
+
+(* sensitivity: taking the params column from a SECOND pass is the search when passes repeat (grid,
+   integer seed), and misaligns rows / best_params_ when they do not (regression C08-c) *)
+Theorem C08_second_pass_harmless_only_when_reiterable :
+  (forall XV tm yv xv metric gib asc F P apply_params respond cutoff_after base G draw g sp st,
+     (forall g1, fst (draw g1) = fst (draw g)) ->
+     search_two_pass XV tm yv xv metric gib asc F P apply_params respond cutoff_after base G draw g sp st
+     = fst (search_from XV tm yv xv metric gib asc F P apply_params respond cutoff_after base G draw
+                        g sp st)) /\
+  exists s,
+    search_two_pass Q (fun p => p + 7) (series ex_y) None (metric_of MMAE) false gen_ascending fc8
+                    (list pset) apply8 respond8 cutoff8 ex_base bool flip_draw true ex_sp Refit = Ok s /\
+    let own_mean p := fc_mean Q (fun p => p + 7) (series ex_y) None (metric_of MMAE) fc8 respond8
+                              cutoff8 ex_sp Refit (apply8 ex_base p) in
+    resq_eqb (own_mean (nth 0 (s_params s) [])) (Ok (nth 0 (s_means s) 0%Q)) = false /\
+    s_best_index s = 1 /\ resq_eqb (own_mean (s_best s)) (Ok (s_best_score s)) = false /\
+    match fst (search_from Q (fun p => p + 7) (series ex_y) None (metric_of MMAE) false gen_ascending
+                           fc8 (list pset) apply8 respond8 cutoff8 ex_base bool flip_draw true ex_sp
+                           Refit) with
+    | Ok s1 => resq_eqb (own_mean (s_best s1)) (Ok (s_best_score s1)) = true
+    | Err => False
+    end.
+Proof.
+  exact (conj two_pass_harmless_when_reiterable second_pass_misaligns_rows_refuted).
+Qed.
+Print Assumptions C08_second_pass_harmless_only_when_reiterable.
+
 Theorem C08_search_rejects_iff_splitter_rejects :
   forall XV tm yv xv metric gib asc F P apply_params respond cutoff_after base sp st cands,
   cands <> [] ->
